@@ -28,6 +28,7 @@ KEY_NU = 'phi_1D:gamma-not-multiplied-by-nu'
 KEY_TINY = 'phi_1D_genic:tiny-gamma-cancellation'
 KEY_COARSE = 'one_pop:coarse-grid-exceeds-1.5pct'
 KEY_WINDOW = 'phi_1D:overflow-guard-window'
+KEY_QUAD = 'phi_1D:quad-subdivision-limit'
 LN_DBL_MAX = 709.782712893384
 
 def read_guard(ctx):
@@ -223,6 +224,12 @@ def density_part(ctx, guard, fnd):
                 fnd.add(KEY_TINY, 'phi_1D_genic loses accuracy to cancellation near gamma = 0: gamma=%r gives entries %.3g (relative) away from the neutral density, exact theory says <= %.1g' % (
                     c['gamma'], dev, 3 * abs(g_eff(c))), {'case': c, 'impl': r, 'coq': rr})
                 continue
+            if c['h'] != 0.5 and r.get('quad_limit_warnings', 0) > 0 and rr is not None:
+                # scipy.integrate.quad gave up at its subdivision limit (it says so in an IntegrationWarning): the oracle slot did not return the integral
+                ctx.obligations[-1]['known_key'] = KEY_QUAD
+                fnd.add(KEY_QUAD, 'phi_1D is off by 2^%d relative from the closed-form equilibrium density for %s: scipy.integrate.quad stops at its limit of 50 subdivisions (IntegrationWarning, %d times) on the sharply peaked integrand exp(-Q)' % (
+                    rr[1], pdesc(c), r['quad_limit_warnings']), {'case': c, 'impl': r, 'coq': rr})
+                continue
             nbad += 1
             if nbad <= 3:
                 ctx.violation('phi_1D differs from the closed-form equilibrium density (model) beyond 1e-7: %s (log2 rel err %r)' % (pdesc(c), rr),
@@ -345,7 +352,9 @@ def gen_histories(ctx):
             elif r < 0.6:
                 # same size: the equilibrium stays the equilibrium
                 T = numgen.logdy(rng, 0.005, 3)
-                c['sel'] = {'g': g, 'scale': 1.0, 'res': abs(g)}; c['params'] = [1.0, T, g]
+                g = lib.dyadic(rng, -10, 8, 3)
+                # (integration lets the tiny high-frequency entries relax to the DISCRETE stationary state: needs a finer grid than sampling alone)
+                c['sel'] = {'g': g, 'scale': 1.0, 'res': 3.5 * abs(g)}; c['params'] = [1.0, T, g]
             else:
                 # long after the change (T/nu >= 25): the new equilibrium, effective coefficient gamma*nu, scale nu
                 nu = numgen.logdy(rng, 0.05, 0.11); T = numgen.logdy(rng, 2.8, 3.0)
